@@ -409,6 +409,7 @@ func (u *UnitGen) execUnOp(fr *Frame, st *State, in *ssa.UnOp) {
 		et := in.X.Type().Underlying().(*types.Chan).Elem()
 		v := u.havoc(fmt.Sprintf("f%d_%s_recv", fr.id, in.Name()), u.g.reg.SortOf(et))
 		u.assumeType(st, v, et)
+		u.chanRecv(st, in.X.Type(), u.val(fr, st, in.X), TTrue)
 		if in.CommaOk {
 			ok := u.havoc(fmt.Sprintf("f%d_%s_ok", fr.id, in.Name()), SBool)
 			fr.tuples[in] = []Term{v, ok}
@@ -554,6 +555,11 @@ func (u *UnitGen) execTypeAssert(fr *Frame, st *State, in *ssa.TypeAssert) {
 	} else {
 		ok = Eq(tag, IntN(int64(reg.TypeTag(in.AssertedType))))
 		v = reg.FromPayload(pay, in.AssertedType)
+		// the value held by an interface whose dynamic type is T is a value of T (e.g. within
+		// the integer range of T)
+		if b, isBasic := in.AssertedType.Underlying().(*types.Basic); isBasic && b.Info()&types.IsInteger != 0 {
+			u.assume(st, Implies(ok, u.typeFacts(st, v, in.AssertedType)))
+		}
 	}
 	if in.CommaOk {
 		okd := u.define(fmt.Sprintf("f%d_%s_ok", fr.id, in.Name()), ok)
@@ -698,6 +704,14 @@ func (u *UnitGen) chanSend(st *State, ct types.Type, ch, x Term) {
 	u.setDef(st, lk, Store(l, ch, App(SInt, "+", n, IntN(1))))
 }
 
+// chanRecv counts a receive on ch in the ghost counter recvd(ch) (when cond holds).
+func (u *UnitGen) chanRecv(st *State, ct types.Type, ch Term, cond Term) {
+	rk, rs := u.recvKey(ct)
+	r := u.get(st, rk, rs)
+	u.markStore(rk, ch)
+	u.setDef(st, rk, Ite(cond, Store(r, ch, App(SInt, "+", Select(r, ch), IntN(1))), r))
+}
+
 func (u *UnitGen) execSelect(fr *Frame, st *State, in *ssa.Select) {
 	// nondeterministic choice among the cases (and default if non-blocking)
 	idx := u.havoc(fmt.Sprintf("f%d_%s_idx", fr.id, in.Name()), SInt)
@@ -725,6 +739,7 @@ func (u *UnitGen) execSelect(fr *Frame, st *State, in *ssa.Select) {
 			v := u.havoc(fmt.Sprintf("f%d_%s_r%d", fr.id, in.Name(), i), u.g.reg.SortOf(et))
 			u.assumeType(st, v, et)
 			tup = append(tup, v)
+			u.chanRecv(st, s.Chan.Type(), ch, Eq(idx, IntN(int64(i))))
 		}
 	}
 	fr.tuples[in] = tup
